@@ -79,6 +79,12 @@ def members_of(cg, fine):
 
 def check_mapping(cg, fine, templates, all_atom, what=''):
     members = members_of(cg, fine)
+    # two atoms paired by shared-atom descriptors are ONE atom of both coarse nodes, never two bonded atoms
+    for a, b, d in fine.edges(data=True):
+        bd = d.get('bonding')
+        expect(not (bd and str(bd[0]).startswith('!')), 'mapping:shared-atom-pair-left-as-bond',
+               lambda: '%satoms %r and %r were paired by %r but are two bonded atoms (fragid %r / %r)' % (
+                   what, a, b, bd, fine.nodes[a].get('fragid'), fine.nodes[b].get('fragid')))
     for k in cg.nodes:
         fragname = cg.nodes[k].get('fragname')
         g = cg.nodes[k].get('graph')
